@@ -15,14 +15,14 @@ import (
 // receiver: either the real client (rsyncclient.Run, we play the server) or a
 // real server in receiver mode (HandleConnArgs on a writable module).
 type RecvPeer struct {
-	End      *xport.End
-	Done     chan error
-	IsClient bool       // the real receiver is the client side
-	In       *wirekit.R // requests from the receiver
-	Out      *wirekit.W // our answers
-	Demux    *wirekit.Demux
-	Seed     int32
-	Rules    []string // filter rules the client sent
+	End       *xport.End
+	Done      chan error
+	IsClient  bool       // the real receiver is the client side
+	In        *wirekit.R // requests from the receiver
+	Out       *wirekit.W // our answers
+	Demux     *wirekit.Demux
+	Seed      int32
+	Rules     []string // filter rules the client sent
 	SendRules []string // harness as client of a deleting server: the filter rules to transmit (e.g. "- name")
 }
 
